@@ -11,6 +11,9 @@ NODE_KINDS = ("source", "machine", "sink")
 
 
 def pol_str(p):
+    if p[0] == "RANDOM":
+        # the values random.randint returned in the implementation run (recorded), replayed as a stream
+        return "S:" + ",".join(str(x) for x in (p[1] if len(p) > 1 and p[1] else [0]))
     if p[0] in ("FA", "RR", "BAD"):
         return p[0]
     if p[0] == "C":
@@ -47,6 +50,7 @@ class Log:
         self.items = []
         self.src_index = {}
         self.node_index = {}
+        self.random_draws = {}
 
 
 class StatsDict(dict):
@@ -94,6 +98,8 @@ def sel_arg(log, nidx, what, p, style):
         return "ROUND_ROBIN"
     if p[0] == "BAD":
         return "NO_SUCH_POLICY"
+    if p[0] == "RANDOM":
+        return "RANDOM"
     if p[0] == "C":
         return p[1]
     return stream(log, nidx, what, p[1], "callable" if style == "const" else style)
@@ -169,6 +175,24 @@ def run_impl(cfg):
     log.env = env
     srcmod = mods["nodes.source"]
     BaseItem, BasePallet = srcmod.Item, srcmod.Pallet
+    utils = common.load("utils.utils")
+    import random as _random
+    _random.seed(cfg.get("seed", 12345))
+
+    class RandomTap:
+        """utils.random with a tap: RANDOM selections are logged like any other selector draw"""
+        def __getattr__(self, k):
+            return getattr(_random, k)
+
+        def randint(self, a, b):
+            v = _random.randint(a, b)
+            f = sys._getframe(1)
+            node, et = f.f_locals.get("node"), f.f_locals.get("edge_type")
+            n = log.node_index.get(id(node), -1)
+            log.lines.append("W %d %d %d" % (n, 1 if et == "in" else 2, v))
+            log.random_draws.setdefault((n, 1 if et == "in" else 2), []).append(v)
+            return v
+    utils.random = RandomTap()
 
     def mk(base):
         class Logged(base):
@@ -263,6 +287,13 @@ def run_impl(cfg):
                 len(st.reserve_put_queue), len(st.reservations_put), len(st.reserve_get_queue), len(st.reservations_get)))
     finally:
         srcmod.Item, srcmod.Pallet = BaseItem, BasePallet
+        utils.random = _random
+    # hand the recorded RANDOM draws to the model as streams
+    for (n, what), vals in log.random_draws.items():
+        if 0 <= n < len(cfg["nodes"]):
+            key = "insel" if what == 1 else "outsel"
+            if cfg["nodes"][n][key][0] == "RANDOM":
+                cfg["nodes"][n][key] = ("RANDOM", vals + [0])
     return out
 
 
@@ -349,8 +380,10 @@ def gen_policy(rng, k, allow_bad=False):
     r = rng.random()
     if r < 0.4:
         return ("FA",)
-    if r < 0.6:
+    if r < 0.55:
         return ("RR",)
+    if r < 0.62 and k > 1:
+        return ("RANDOM",)
     if r < 0.75:
         return ("C", rng.randrange(k))
     return ("S", [rng.randrange(k) for _ in range(rng.choice([1, 2, 3, 5]))])
@@ -437,16 +470,24 @@ def gen_config_sc(rng):
             edges[-1]["delays"] = edges[-1]["delays"][:1]
         return len(edges) - 1
     shape = rng.choice(["comb", "split", "both", "both"])
+    pallet_edges = set()
     ps = node("source", pallet=True)
     last = ps
     if shape in ("comb", "both"):
         k = rng.choice([1, 1, 2])
         srcs = [node("source") for _ in range(k)]
-        c = node("combiner", recipe=[0] + [rng.choice([1, 1, 2, 3]) for _ in range(k)])
-        edge(ps, c)
+        c = node("combiner", recipe=[0] + [rng.choice([0, 1, 1, 2, 3]) for _ in range(k)])
+        pallet_edges.add(edge(ps, c))
         for s_ in srcs:
             edge(s_, c, fleet_ok=True)
         last = c
+        if rng.random() < 0.3:
+            # a second combiner packs more items onto the pallets of the first
+            s2 = node("source")
+            c2 = node("combiner", recipe=[0, rng.choice([1, 2, 3])])
+            pallet_edges.add(edge(c, c2))
+            edge(s2, c2)
+            last = c2
     if shape in ("both",) and rng.random() < 0.4:
         m = node("machine")
         edge(last, m)
@@ -467,7 +508,7 @@ def gen_config_sc(rng):
             edge(last, sk)
     # connect order: the combiner's pallet edge must be its in-edge 0
     connects = [(i, e["src"], e["dst"]) for i, e in enumerate(edges)]
-    pallet_first = [c for c in connects if nodes[c[2]]["kind"] == "combiner" and nodes[c[1]].get("pallet")]
+    pallet_first = [c for c in connects if c[0] in pallet_edges]
     rest = [c for c in connects if c not in pallet_first]
     rng.shuffle(rest)
     connects = pallet_first + rest
@@ -522,7 +563,8 @@ def gen_invalid(rng):
     """a valid configuration with exactly one invalid aspect injected"""
     for _ in range(50):
         cfg = gen_config(rng, with_fleet=True) if rng.random() < 0.7 else gen_config_sc(rng)
-        kind = rng.choice(["bad_const_index", "bad_policy", "negative_delay", "cap_zero", "bad_mode", "nonblocking_zero_interarrival"])
+        kind = rng.choice(["bad_const_index", "bad_policy", "negative_delay", "cap_zero", "bad_mode", "nonblocking_zero_interarrival",
+                           "bad_stream_index", "bad_stream_index"])
         cfg["valid"] = False
         cfg["expect_reject"] = kind
         cand = [i for i, n in enumerate(cfg["nodes"]) if n["kind"] in ("source", "machine")]
@@ -531,6 +573,17 @@ def gen_invalid(rng):
             n = cfg["nodes"][i]
             cfg["fault_node"] = i
             n["outsel"] = ("C", rng.choice([len(n["outs"]), len(n["outs"]) + 2, -1]))
+        elif kind == "bad_stream_index":
+            # a user callable / generator that answers an index outside [0, n) after a few valid answers
+            i = rng.choice(cand)
+            n = cfg["nodes"][i]
+            cfg["fault_node"] = i
+            k = len(n["outs"])
+            good = [rng.randrange(k) for _ in range(rng.choice([0, 1, 3]))]
+            n["outsel"] = ("S", good + [rng.choice([-1, -k, k, k + 1])])
+            cfg["fault_after"] = len(good)
+            if n["style"] == "const":
+                n["style"] = "callable"
         elif kind == "bad_policy":
             cfg["fault_node"] = rng.choice(cand)
             cfg["nodes"][cfg["fault_node"]]["outsel"] = ("BAD",)
